@@ -187,7 +187,7 @@ pub fn check(s: &Sched, st: &mut Stats) -> Result<(), String> {
 }
 
 fn run(c: &mut Ctx) {
-    let cases = c.tier.pick(16_000, 400_000);
+    let cases = c.tier.pick(48_000, 800_000);
     let r = c.proptest(cases, sched_strategy(), |c, s, counting| {
         let mut st = Stats::default();
         let r = check(s, &mut st);
